@@ -438,6 +438,7 @@ async fn run_wire(sizes: &[u16], seed: u64, rep: &mut CaseReport) -> Option<(Str
         foreign_enr_answer: vec![],
         v_session_timeout_ms: None,
         v_session_capacity: None,
+        v_dual_listen: false,
     };
     let mut w = World::new(cfg).await;
     let dst = w.nodes[0].id;
